@@ -33,6 +33,11 @@ type C20Case struct {
 	ParentHidden bool   `json:"parent_hidden,omitempty"`
 	// HelpFlag: the built-in help option is present
 	HelpFlag bool `json:"help_flag,omitempty"`
+	// ParentProg: the parent (and so its sub-commands) is added with AddCommand;
+	// its data implements Commander. RootOptional: sub-commands are optional at
+	// the root - not below the parent
+	ParentProg   bool `json:"parent_prog,omitempty"`
+	RootOptional bool `json:"root_optional,omitempty"`
 }
 
 var _ = Register("C20", func() interface{} { return new(C20Case) }, func(c interface{}) string { return c20Oracle(c.(*C20Case)) })
@@ -155,6 +160,8 @@ func genC20(t *rapid.T) *C20Case {
 	if rapid.IntRange(0, 3).Draw(t, "nested") == 0 {
 		c.Parent = rapid.SampledFrom([]string{"debug", "x", "дн"}).Draw(t, "parent")
 		c.ParentHidden = rapid.Bool().Draw(t, "parentHidden")
+		c.ParentProg = rapid.Bool().Draw(t, "parentProg")
+		c.RootOptional = rapid.Bool().Draw(t, "rootOptional")
 	}
 	c.HelpFlag = rapid.IntRange(0, 2).Draw(t, "helpFlag") == 0
 	if c.HasArg && rapid.IntRange(0, 9).Draw(t, "wordOfLength") == 0 {
@@ -177,7 +184,8 @@ func c20Decl(c *C20Case) *Decl {
 	d.Root.G.Groups = []Group{{Field: "G0", Desc: "Application Options"}}
 	host := &d.Root
 	if c.Parent != "" {
-		d.Root.Cmds = []Cmd{{ID: "parent", Name: c.Parent, Field: "Parent", ByTag: true, Hidden: c.ParentHidden, Desc: "p"}}
+		d.Root.Cmds = []Cmd{{ID: "parent", Name: c.Parent, Field: "Parent", ByTag: !c.ParentProg, Hidden: c.ParentHidden, Desc: "p"}}
+		d.Root.SubOpt = c.RootOptional
 		host = &d.Root.Cmds[0]
 	}
 	for i, n := range c.Names {
@@ -186,7 +194,7 @@ func c20Decl(c *C20Case) *Decl {
 			Hidden: c.Hidden[i], Desc: "d",
 		})
 		if c.Parent != "" {
-			host.Cmds[i].ByTag = true // (sub-commands of a tag-declared command are tag-declared)
+			host.Cmds[i].ByTag = !c.ParentProg // (sub-commands of a tag-declared command are tag-declared)
 		}
 		if i < len(c.Aliases) {
 			host.Cmds[i].Aliases = c.Aliases[i]
